@@ -2161,6 +2161,19 @@ func (ctx Ctx) multipleAssignStmt(s *ast.AssignStmt) coq.Binding {
 		names[i] = fmt.Sprintf("%d_ret", i)
 	}
 	multipleRetBinding := coq.Binding{Names: names, Expr: rhs}
+	// Go evaluates the operands of every target (the index in s[i], the
+	// pointer in p.x) before the first store; the stores below are emitted
+	// one after the other
+	for i, lhs := range s.Lhs {
+		if _, ok := lhs.(*ast.Ident); ok {
+			continue
+		}
+		for _, earlier := range s.Lhs[:i] {
+			if id, ok := earlier.(*ast.Ident); ok && id.Name != "_" && ctx.mentions(lhs, id) {
+				ctx.unsupported(s, "assignment target %s uses %s, which the same statement assigns first", ctx.printGo(lhs), id.Name)
+			}
+		}
+	}
 
 	coqStmts := make([]coq.Binding, len(s.Lhs)+1)
 	coqStmts[0] = multipleRetBinding
@@ -2221,6 +2234,19 @@ func (ctx Ctx) hasIdentity(e ast.Expr) bool {
 			}
 		case *ast.FuncLit:
 			return false
+		}
+		return !found
+	})
+	return found
+}
+
+// mentions reports whether e uses the variable that id denotes
+func (ctx Ctx) mentions(e ast.Expr, id *ast.Ident) bool {
+	obj := ctx.info.ObjectOf(id)
+	found := false
+	ast.Inspect(e, func(n ast.Node) bool {
+		if x, ok := n.(*ast.Ident); ok && obj != nil && ctx.info.ObjectOf(x) == obj {
+			found = true
 		}
 		return !found
 	})
